@@ -146,7 +146,33 @@ class RelayMode(vlib.Mode):
     # ------------------------------------------------------------------ generation
     def generate(self, rng, tier):
         n = {"quick": 90, "thorough": 2500}[tier]
-        return [self.gen_case(rng) for _ in range(n)]
+        return [self.gen_case(rng) for _ in range(n)] + [self.gen_volume_case(rng) for _ in range(1 if tier == "quick" else 4)]
+
+    def gen_volume_case(self, rng):
+        """many bookings and many outstanding codes at once (thresholds, housekeeping that only starts at a size)"""
+        now = 1000000 + rng.randrange(0, 5000)
+        case = ["config 0 256", f"now {now}"]
+        admin = tok(now, scopes=lval(["relay:admin"]), topic="a", prefix="a", bid="a")
+        nb = rng.choice([260, 300, 520])
+        for i in range(nb):
+            case.append(f"deny {admin} {sval(f'vb{i}')} {sval(str(now + 400 + (i % 7)))}")
+        case.append(f"listdeny {admin}")
+        for i in range(0, nb, 5):
+            case.append(f"allow {admin} {sval(f'vb{i}')} {sval(str(now + 500))}")
+        case.append(f"listdeny {admin}"); case.append(f"listallow {admin}")
+        t = TOPICS[0]
+        ncodes = 0
+        for i in range(rng.choice([130, 270])):
+            b = f"vb{i}" if i % 3 == 0 else f"ok{i}"
+            case.append(f"session {tok(now, topic=sval(t), bid=sval(b), scopes=lval(['read', 'write']))} {hx(t)}")
+            if not (i % 3 == 0 and i % 5 != 0): ncodes += 1
+        for k in range(0, min(ncodes, 12)):
+            case.append(f"ws {hx('/session/' + t)} c{k * 7 % max(ncodes, 1)}")
+        case.append(f"now {now + 31}")
+        case.append(f"ws {hx('/session/' + t)} c{max(ncodes - 1, 0)}")
+        case.append(f"session {tok(now + 31, topic=sval(t), bid=sval('ok-last'), scopes=lval(['read']))} {hx(t)}")
+        case.append("sync"); case.append("members")
+        return case
 
     def gen_case(self, rng):
         allow_nobid = rng.random() < 0.3
